@@ -74,11 +74,14 @@ void AppendDomain(util::Serializer &dump, const std::string domain)
     dump << uint8_t(0);
 }
 
+//! 一个域名中允许连续跟随的压缩指针个数上限，防止指针成环导致无限递归
+const int kMaxCompressPointerDepth = 16;
+
 /// 从缓冲中提取domain，与AppendDomain()相反
 /**
- * \return  false   数据不完整或压缩指针指向包外，domain 不可用
+ * \return  false   数据不完整、压缩指针指向包外或指针嵌套过深(成环)，domain 不可用
  */
-bool FetchDomain(util::Deserializer &parser, std::string &domain)
+bool FetchDomain(util::Deserializer &parser, std::string &domain, int depth = 0)
 {
     std::ostringstream oss;
     bool first = true;
@@ -95,13 +98,16 @@ bool FetchDomain(util::Deserializer &parser, std::string &domain)
 
         //! 处理压缩的字串
         if ((len & 0xc0) == 0xc0) {
+            if (depth >= kMaxCompressPointerDepth)
+                return false;
+
             uint8_t offset_low = 0;
             if (!parser.fetch(offset_low))
                 return false;
             uint16_t offset = (len & 0x3f) << 8 | offset_low;
             util::Deserializer sub_parser(parser);
             std::string sub_domain;
-            if (!sub_parser.set_pos(offset) || !FetchDomain(sub_parser, sub_domain))
+            if (!sub_parser.set_pos(offset) || !FetchDomain(sub_parser, sub_domain, depth + 1))
                 return false;
             oss << sub_domain;
             break;
